@@ -352,7 +352,9 @@ static std::string ext_ops(const std::string& op, const Args& a) {
 template <size_t K> static RecInt::rint<K> mkrint(const Integer& z) { RecInt::rint<K> r; RecInt::mpz_t_to_rint(r, z.get_mpz_const()); return r; }
 // ruint<K>(const char*): the ruint<6> specialisation declares this constructor (ruruint.h) but nothing defines it (link error)
 template <size_t K> struct RuCstr { static RecInt::ruint<K> mk(const char* s) { return RecInt::ruint<K>(s); } };
+#ifndef C19_RUINT6_CSTR
 template <> struct RuCstr<6> { static RecInt::ruint<6> mk(const char* s) { RecInt::ruint<6> r; RecInt::mpz_to_ruint(r, mpz_class(s)); return r; } };
+#endif
 template <size_t K> struct RecIO {
     static std::string go(const std::string& op, const Args& a) {
         bool hx = (a[1] == "1");
